@@ -950,6 +950,24 @@ def _run_dist(case, ctx):
         _check_sample(case, ctx, "modular_vmap-lanes", out, (n, B) + ev,
                       [((slice(None), li), p) for li, p in enumerate(pts)], allbase,
                       f"jax.vmap(seed(modular_vmap(lambda *p: d.sample(...))))(keys[{n}], *params stacked to {B} lanes)")
+        # lanes of ONE vectorised call are independent draws: rank correlation of lane a with lane b over the keys
+        # (permutation null: var(r) = 1/(n-1) exactly, ties included); a shared key makes the ranks coincide
+        if not _is_raised(out) and np.asarray(out).shape[:2] == (n, B) and B >= 2:
+            o = np.asarray(out).astype(np.float64).reshape(n, B, -1)[:, :, 0]
+            for a_, b_ in [(0, 1)] + ([(1, 2)] if B >= 3 else []):
+                xa, xb = o[:, a_], o[:, b_]
+                if not (np.all(np.isfinite(xa)) and np.all(np.isfinite(xb))) or np.ptp(xa) == 0 or np.ptp(xb) == 0:
+                    continue
+                from scipy.stats import rankdata
+
+                ra, rb = rankdata(xa), rankdata(xb)
+                r = float(np.corrcoef(ra, rb)[0, 1])
+                z = r * np.sqrt(n - 1)
+                ctx.count("lane_independence_tests")
+                if abs(z) > 7.0:
+                    _emit(ctx, f"sample|modular_vmap-lanes|{_formkind(kw)}|lanes-of-one-call-are-dependent",
+                          {**_base_detail(case, pts[a_]), "lanes": [a_, b_], "rank_correlation": r, "z": float(z), "keys": n,
+                           "threshold_z": 7.0})
         if not case["primary"]:
             continue  # the remaining configurations do not depend on how the parameters are named
         # modular_vmap over parameter lanes of a site that also has a sample_shape: lanes lead, then the sample axis.
